@@ -59,6 +59,9 @@ type Case struct {
 	BatchSize      int      `json:"batch_size"`
 	BatchBytes     int64    `json:"batch_bytes"`
 	BatchTimeoutMs int      `json:"batch_timeout_ms"`
+	// BatchTimeoutUs > 0 replaces BatchTimeoutMs: a BatchTimeout below a millisecond (BatchTimeoutMs then only tells the
+	// oracles which whole number of milliseconds bounds it)
+	BatchTimeoutUs int `json:"batch_timeout_us,omitempty"`
 	MaxAttempts    int      `json:"max_attempts"`
 	BackoffMinMs   int      `json:"backoff_min_ms"`
 	BackoffMaxMs   int      `json:"backoff_max_ms"`
@@ -394,7 +397,7 @@ func Run(c Case) *Result {
 	}
 	w := &kafka.Writer{
 		Addr: kafka.TCP("b1.fake:9092"), Transport: tr, Balancer: bal,
-		BatchSize: c.BatchSize, BatchBytes: c.BatchBytes, BatchTimeout: time.Duration(c.BatchTimeoutMs) * time.Millisecond,
+		BatchSize: c.BatchSize, BatchBytes: c.BatchBytes, BatchTimeout: c.batchTimeout(),
 		MaxAttempts: c.MaxAttempts, WriteBackoffMin: time.Duration(c.BackoffMinMs) * time.Millisecond, WriteBackoffMax: time.Duration(c.BackoffMaxMs) * time.Millisecond,
 		RequiredAcks: kafka.RequiredAcks(c.Acks), Compression: kafka.Compression(c.Compression), Async: c.Async,
 		WriteTimeout: wt, ReadTimeout: 5 * time.Second,
@@ -404,7 +407,7 @@ func Run(c Case) *Result {
 	}
 	if c.ViaNewWriter && c.Acks != 0 {
 		cfg := kafka.WriterConfig{Brokers: []string{"b1.fake:9092"}, Topic: w.Topic, Balancer: bal, MaxAttempts: c.MaxAttempts, BatchSize: c.BatchSize, BatchBytes: int(c.BatchBytes),
-			BatchTimeout: time.Duration(c.BatchTimeoutMs) * time.Millisecond, ReadTimeout: 5 * time.Second, WriteTimeout: wt, RequiredAcks: c.Acks, Async: c.Async}
+			BatchTimeout: c.batchTimeout(), ReadTimeout: 5 * time.Second, WriteTimeout: wt, RequiredAcks: c.Acks, Async: c.Async}
 		if c.Compression != 0 {
 			cfg.CompressionCodec = kafka.Compression(c.Compression).Codec()
 		}
@@ -635,6 +638,13 @@ func topicFor(c Case) string {
 		return ""
 	}
 	return c.Topics[0]
+}
+
+func (c Case) batchTimeout() time.Duration {
+	if c.BatchTimeoutUs > 0 {
+		return time.Duration(c.BatchTimeoutUs) * time.Microsecond
+	}
+	return time.Duration(c.BatchTimeoutMs) * time.Millisecond
 }
 
 // IsClosedPipe reports whether err is io.ErrClosedPipe.
